@@ -124,7 +124,7 @@ func (r *run) Canon() string {
 		fmt.Fprintf(&b, "] mir=%s\n", s.mir.Canon())
 	}
 	b.WriteString("CONN " + r.w.Users[0].Conn.Canon() + "\n")
-	fmt.Fprintf(&b, "keyN=%d lastRemoved=%s/%s tainted=%s", r.keyN, r.lastRemoved, r.lastRemMbox, r.taintCanon())
+	fmt.Fprintf(&b, "keyN=%d lastRemoved=%s/%s tainted=%s ooo=%s", r.keyN, r.lastRemoved, r.lastRemMbox, r.taintCanon(), r.oooCanon())
 	return b.String()
 }
 
@@ -224,6 +224,10 @@ func classify(own, fresh []*imapc.FetchRow) (string, string, uint32) {
 // Extensions: PROBE every selected session (C01), then QUIESCE: deliver everything, NOOP, probe, compare with a
 // fresh session (C02). The world is discarded afterwards.
 func (r *run) Extensions() []explore.Violation {
+	return r.relabel(r.extensions())
+}
+
+func (r *run) extensions() []explore.Violation {
 	var out []explore.Violation
 	if r.broken != "" {
 		return out
@@ -254,6 +258,10 @@ func (r *run) Extensions() []explore.Violation {
 		return append(out, r.viol("ENGINE", "engine", "broken", r.broken))
 	}
 	_ = pushed
+	for _, s := range r.sess {
+		_ = r.w.Barrier(s.s)
+	}
+	r.noteOutOfOrder()
 	for i, s := range r.sess {
 		if s.s.Dead || !r.selected(i) {
 			continue
@@ -267,6 +275,8 @@ func (r *run) Extensions() []explore.Violation {
 			continue
 		}
 		out = append(out, r.afterCommand(i, "NOOP", res, nil)...)
+		_ = r.w.Barrier(s.s)
+		r.noteOutOfOrder()
 		pr := s.s.C.Cmd(probeCmd)
 		if !pr.OK() {
 			continue
